@@ -226,6 +226,9 @@ parseinit(struct scope *s, struct type *t)
 		}
 		if (consume(TLBRACE)) {
 			if (consume(TRBRACE)){
+				/* the empty braces initialize the first element of the current array */
+				if (p.cur == p.sub && p.cur->type->kind == TYPEARRAY)
+					focus(&p);
 				if (p.sub->type->incomplete)
 					error(&tok.loc, "array of unknown size has empty initializer");
 				goto next;
